@@ -1285,4 +1285,180 @@ theorem iunref_ok {tc : TCfg} (R : Repaired tc.base) (hrf : tc.rootForgetsTickit
   · rw [if_pos (not_true_of hh)]
     exact ⟨top, "skip", rfl, T.pre⟩
 
+/-! ### `tickit_tick` -/
+
+theorem setInst_rest (top : Top) (f : Inst → Inst) (hf : ∀ i, top.inst = some i → (f i).freed = i.freed ∧ (f i).refcount = i.refcount ∧
+    (f i).appRefs = i.appRefs ∧ (i.freed = true → f i = i)) : Rest top (setInst top f) := by
+  refine ⟨?_, rfl, rfl, rfl, rfl, rfl, rfl, rfl, rfl, rfl, rfl, rfl, fun _ h => h⟩
+  unfold setInst
+  cases hi : top.inst with
+  | none => trivial
+  | some i => exact hf i hi
+
+theorem live_of_rel {a b : Top} (h : InstRel a.inst b.inst) (hl : ∀ i, a.inst = some i → i.freed = false) :
+    ∀ j, b.inst = some j → j.freed = false := by
+  intro j hj
+  cases ha : a.inst with
+  | none => rw [ha, hj] at h; exact h.elim
+  | some i => rw [ha, hj] at h; rw [h.1]; exact hl i ha
+
+/-- `on_term_timeout`. -/
+theorem onTermTimeout_ok {cfg : Cfg} (R : Repaired cfg) {gh : Ghost} {top : Top} (F : FInv gh top) (hg : 1 ≤ gh.term)
+    (hlive : ∀ i, top.inst = some i → i.freed = false) :
+    ∃ top', onTermTimeout cfg top = .ok top' ∧ FInv gh top' ∧ Rest top top' := by
+  have hf : top.st.term.freed = false := term_live_of_ghost F.inv hg
+  have tail : ∀ (t : Top) (msec : Int), FInv gh t → Rest top t → ∃ top',
+      (if msec > -1 then
+        (pure (setInst t (fun i => { i with timers := i.timers.takeWhile (fun e => e.1 ≤ t.now + msec) ++ [(t.now + msec, .termTimeout)] ++ i.timers.dropWhile (fun e => e.1 ≤ t.now + msec) })) : Out Top)
+      else pure t) = .ok top' ∧ FInv gh top' ∧ Rest top top' := by
+    intro t msec Ft Rt
+    split
+    · refine ⟨_, rfl, Ft.of_fields rfl rfl, Rt.trans (setInst_rest t _ ?_)⟩
+      intro i hi
+      refine ⟨rfl, rfl, rfl, fun hfr => ?_⟩
+      have := live_of_rel Rt.inst hlive i hi
+      rw [this] at hfr; cases hfr
+    · exact ⟨t, rfl, Ft, Rt⟩
+  unfold onTermTimeout
+  dsimp only
+  by_cases h0 : getTimeout top = 0
+  · simp only [h0, if_true]
+    obtain ⟨t1, h1, F1, R1⟩ := withTermRef_ok F hf (f := timedOut cfg) (fun t Ft => timedOut_ok R Ft)
+    simp only [h1, bind_ok]
+    exact tail t1 (-1) F1 R1
+  · simp only [h0, if_false, pure_ok, bind_ok]
+    exact tail top (getTimeout top) F (Rest.refl top)
+
+/-- A timer or a deferred call fires: a watch of the application (any actions), or the instance's own timer for the
+    terminal's input timeout. -/
+theorem fireItem_ok {cfg : Cfg} (R : Repaired cfg) {gh : Ghost} (hg : 1 ≤ gh.term) (timer : Bool) {top : Top} (F : FInv gh top)
+    (hlive : ∀ i, top.inst = some i → i.freed = false) (w : WItem) :
+    ∃ top', fireItem cfg timer top w = .ok top' ∧ FInv gh top' ∧ Rest top top' := by
+  cases w with
+  | app idx acts =>
+    show ∃ top', runWatch cfg top _ acts = .ok top' ∧ _
+    unfold runWatch
+    obtain ⟨top1, h1, F1, R1⟩ := tActs_ok R acts (top := { top with st := { top.st with log := top.st.log ++ [if timer then s!"M{idx}" else s!"L{idx}"] } })
+      ⟨F.inv.of_log _, F.keep.of_wx rfl, F.ids, F.root⟩
+    exact ⟨top1, h1, F1, Rest.trans (by rest_rfl) R1⟩
+  | termTimeout => exact onTermTimeout_ok R F hg hlive
+
+theorem fireItems_ok {cfg : Cfg} (R : Repaired cfg) {gh : Ghost} (hg : 1 ≤ gh.term) (timer : Bool) {α : Type} (g : α → WItem) :
+    ∀ (l : List α) {top : Top}, FInv gh top → (∀ i, top.inst = some i → i.freed = false) →
+      ∃ top', l.foldlM (fun top e => fireItem cfg timer top (g e)) top = .ok top' ∧ FInv gh top' ∧ Rest top top'
+  | [], top, F, _ => ⟨top, rfl, F, Rest.refl top⟩
+  | a :: rest, top, F, hl => by
+    obtain ⟨top1, h1, F1, R1⟩ := fireItem_ok R hg timer F hl (g a)
+    obtain ⟨top2, h2, F2, R2⟩ := fireItems_ok R hg timer g rest F1 (live_of_rel R1.inst hl)
+    exact ⟨top2, by rw [List.foldlM_cons, h1]; exact h2, F2, R1.trans R2⟩
+
+/-- What `tickit_tick` does once the root window has been flushed. -/
+def tickTail (cfg : Cfg) (top : Top) (toks : List Tok) : Out Top := do
+  let i := top.inst.getD {}
+  let later := i.laters
+  let due := i.timers.takeWhile (fun e => e.1 ≤ top.now)
+  let now := top.now
+  let top := setInst top (fun i => { i with laters := [], timers := i.timers.dropWhile (fun e => e.1 ≤ now) })
+  let top ← due.foldlM (fun top e => fireItem cfg true top e.2) top
+  let top ← later.foldlM (fireItem cfg false) top
+  if toks.isEmpty then pure top
+  else do
+    let top ← match getKeys cfg (termRefI top) toks with
+      | some r => do
+        let top ← r
+        termUnrefI top
+      | none => pure top
+    onTermTimeout cfg top
+
+theorem tickTail_ok {cfg : Cfg} (R : Repaired cfg) {gh : Ghost} (hg : 1 ≤ gh.term) {top : Top} (F : FInv gh top)
+    (hlive : ∀ i, top.inst = some i → i.freed = false) (toks : List Tok) :
+    ∃ top', tickTail cfg top toks = .ok top' ∧ FInv gh top' ∧ Rest top top' := by
+  unfold tickTail
+  dsimp only
+  have R0 : Rest top (setInst top (fun i => { i with laters := [], timers := i.timers.dropWhile (fun e => e.1 ≤ top.now) })) := by
+    refine setInst_rest top _ ?_
+    intro i hi
+    refine ⟨rfl, rfl, rfl, fun hfr => ?_⟩
+    rw [hlive i hi] at hfr; cases hfr
+  obtain ⟨t1, h1, F1, R1⟩ := fireItems_ok R hg true (fun (e : Int × WItem) => e.2)
+    ((top.inst.getD {}).timers.takeWhile (fun e => e.1 ≤ top.now))
+    (top := setInst top (fun i => { i with laters := [], timers := i.timers.dropWhile (fun e => e.1 ≤ top.now) }))
+    (F.of_fields rfl rfl) (live_of_rel R0.inst hlive)
+  simp only [h1, bind_ok]
+  have R01 := R0.trans R1
+  obtain ⟨t2, h2, F2, R2⟩ := fireItems_ok R hg false (fun (e : WItem) => e) (top.inst.getD {}).laters F1 (live_of_rel R01.inst hlive)
+  simp only [h2, bind_ok]
+  have R02 := R01.trans R2
+  split
+  · exact ⟨t2, rfl, F2, R02⟩
+  · have hf2 : t2.st.term.freed = false := term_live_of_ghost F2.inv hg
+    cases hgk : getKeys cfg (termRefI t2) toks with
+    | none =>
+      simp only [pure_ok, bind_ok]
+      obtain ⟨t4, h4, F4, R4⟩ := onTermTimeout_ok R F2 hg (live_of_rel R02.inst hlive)
+      exact ⟨t4, h4, F4, R02.trans R4⟩
+    | some r =>
+      obtain ⟨t3, h3, F3, R3⟩ := getKeysRef_ok R F2 hf2 toks hgk
+      have R03 := R02.trans R3
+      obtain ⟨t4, h4, F4, R4⟩ := onTermTimeout_ok R F3 hg (live_of_rel R03.inst hlive)
+      refine ⟨t4, ?_, F4, R03.trans R4⟩
+      simp only
+      cases hr : r with
+      | ok tr =>
+        rw [hr] at h3
+        simp only [bind_ok] at h3 ⊢
+        rw [h3]
+        exact h4
+      | ub k w => rw [hr] at h3; cases h3
+      | fuel => rw [hr] at h3; cases h3
+
+theorem itick_eq (tc : TCfg) (top : Top) (toks : List Tok) : xstepCore tc top (.itick toks) =
+    (if !instHeld top then pure (top, "skip")
+     else match decode top.pendingEsc top.held toks [] with
+      | none => pure (top, "unsupported-input")
+      | some _ => okT (if rootAlive top.st then do
+            let st ← liftT top.st (flushT top.st.tree)
+            tickTail tc.base { top with st := st } toks
+          else tickTail tc.base top toks)) := by
+  show (if !instHeld top then _ else match decode top.pendingEsc top.held toks [] with | none => _ | some _ => _) = _
+  split
+  · rfl
+  · split
+    · rfl
+    · unfold tickTail
+      dsimp only
+      split <;> rfl
+
+/-- `tickit_tick` (the root window flushed first): due timers, deferred calls, the terminal's input, its timeout. -/
+theorem itick_ok {tc : TCfg} (R : Repaired tc.base) {top : Top} (T : TopInv top) (toks : List Tok) :
+    ∃ top1 r, xstepCore tc top (.itick toks) = .ok (top1, r) ∧ TopPre top1 := by
+  rw [itick_eq]
+  by_cases hh : instHeld top = true
+  · rw [if_neg (by rw [hh]; simp)]
+    obtain ⟨i, hi, hfi, _⟩ := instHeld_spec hh
+    have hgh : top.ghost = instGhost := ghost_alive hi hfi
+    have hg : 1 ≤ top.ghost.term := by rw [hgh]; decide
+    have hlive : ∀ j, top.inst = some j → j.freed = false := by intro j hj; rw [hi] at hj; cases hj; exact hfi
+    split
+    · exact ⟨top, _, rfl, T.pre⟩
+    · by_cases hr : rootAlive top.st = true
+      · rw [if_pos hr]
+        obtain ⟨r, hrl⟩ := rootAlive_live hr
+        obtain ⟨t', hq, inv', hrel, _, _, hrc⟩ := flushT_ok T.f.inv.tinv hrl
+        simp only [liftT_ok hq, bind_ok]
+        have F0 : FInv top.ghost { top with st := { top.st with tree := t' } } := by
+          refine ⟨T.f.inv.of_rel' inv' hrel hrc, T.f.keep.of_wx rfl, T.f.ids, ?_⟩
+          intro b hb hna
+          have := T.f.root b hb hna
+          obtain ⟨r0, hr0⟩ := rootAlive_live this
+          obtain ⟨r1, hr1, _⟩ := hrel.live hr0
+          exact rootAlive_iff.2 ⟨r1, hr1⟩
+        obtain ⟨t1, h1, F1, R1⟩ := tickTail_ok R hg F0 hlive toks
+        exact ⟨t1, "ok", okT_ok h1, T.pre_of_rest (Rest.trans (by rest_rfl) R1) F1⟩
+      · rw [if_neg hr]
+        obtain ⟨t1, h1, F1, R1⟩ := tickTail_ok R hg T.f hlive toks
+        exact ⟨t1, "ok", okT_ok h1, T.pre_of_rest R1 F1⟩
+  · rw [if_pos (not_true_of hh)]
+    exact ⟨top, "skip", rfl, T.pre⟩
+
 end Tickit.Life
